@@ -987,7 +987,40 @@ impl Discovery {
       self.handle_topic_reader(Some(guid_prefix));
       self.handle_subscription_reader(Some(guid_prefix));
       self.handle_publication_reader(Some(guid_prefix));
+      self.renotify_known_endpoints(guid_prefix);
       debug!("Participant rediscovery finished");
+    }
+  }
+
+  // A participant that was lost by lease expiry and is now back: the DiscoveryDB
+  // has restored what we knew about its readers and writers, but the event loop
+  // dropped their proxies when the participant was lost. The remote side does
+  // not necessarily announce them again (as far as its reliable SEDP writers are
+  // concerned, we already have those samples, and our SEDP readers would drop
+  // the duplicates), so without this our endpoints would never match them again.
+  fn renotify_known_endpoints(&self, guid_prefix: GuidPrefix) {
+    #[cfg(feature = "security")]
+    if self.security_opt.is_some() {
+      // With security enabled, matching has to wait for the participant to be
+      // authenticated again; Secure Discovery takes care of that.
+      return;
+    }
+    let (readers, writers) = {
+      let db = discovery_db_read(&self.discovery_db);
+      (
+        db.readers_of_participant(guid_prefix),
+        db.writers_of_participant(guid_prefix),
+      )
+    };
+    for discovered_reader_data in readers {
+      self.send_discovery_notification(DiscoveryNotificationType::ReaderUpdated {
+        discovered_reader_data,
+      });
+    }
+    for discovered_writer_data in writers {
+      self.send_discovery_notification(DiscoveryNotificationType::WriterUpdated {
+        discovered_writer_data,
+      });
     }
   }
 
